@@ -1,4 +1,4 @@
-import SaModel.Lemmas.C07TEnsure
+import SaModel.Lemmas.C07TName
 /-
 C07, tree level — the two laws as predicates on samples (`Cong`: `absorb` respects the equivalence and preserves the
 invariant; `Swap`: two samples commute up to the equivalence), their lift to sample lists (`absorbAll`, any
